@@ -14,21 +14,45 @@ Lemma visit_body_shape :
    SIf (CIn SComplete) KNil false;
    SIf (CIn SPartial) KSelf false;
    SAdd SPartial;
-   SRange [IIf (COr CDone CTargetIsLast) KCycle true; IRet KPrepend false];
+   SRange DepsAll [IIf (COr CDone CTargetIsLast) KCycle true; IRet KPrepend false];
    SDel SPartial;
    SAdd SComplete;
    SRet KNil false].
 Proof. reflexivity. Qed.
 
-Lemma check_body_shape : check_body = [LIfRetNil CStopped; LIfVisit (CNot (CIn SComplete))].
+Lemma check_body_shape : check_body = [LIfRetNil CStopped; LIfVisit (CNot (CIn SComplete)) RCycle].
 Proof. reflexivity. Qed.
 
+(* BuildTarget.Dependencies() keeps every resolved entry of target.dependencies, whatever its flags;
+   BuildTarget.BuildDependencies() leaves out the run-time, data, internal and source-only ones *)
+Lemma dependencies_excl_shape : dependencies_excl = [].
+Proof. reflexivity. Qed.
+
+Lemma build_dependencies_excl_shape : build_dependencies_excl = [FRuntime; FData; FInternal; FSource].
+Proof. reflexivity. Qed.
+
+(* type BuildTargetState as regenerated: the hand-written tstate of Model/C06.v has the same constants in
+   the same numeric order *)
+Definition of_gstate (s : gstate) : tstate :=
+  match s with
+  | G_Inactive => Inactive | G_Semiactive => Semiactive | G_Active => Active | G_Pending => Pending
+  | G_Building => Building | G_Stopped => Stopped | G_Built => Built | G_Cached => Cached
+  | G_Unchanged => Unchanged | G_Reused => Reused | G_BuiltRemotely => BuiltRemotely
+  | G_ReusedRemotely => ReusedRemotely | G_DependencyFailed => DependencyFailed | G_Failed => Failed
+  end.
+
+Lemma gstate_order_shape :
+  map of_gstate gstates = [Inactive; Semiactive; Active; Pending; Building; Stopped; Built; Cached; Unchanged;
+                           Reused; BuiltRemotely; ReusedRemotely; DependencyFailed; Failed]
+  /\ forall s, rank (of_gstate s) = gstate_rank s.
+Proof. split; [reflexivity | intros []; reflexivity]. Qed.
+
 (* the dependency loop of visit *)
-Lemma range_eq vis vis' t :
+Lemma range_eq vis vis' env t :
   (forall st d, vis st d = vis' st d) ->
   forall ds st,
     visit_deps vis' t ds st =
-    match exec_range vis t [IIf (COr CDone CTargetIsLast) KCycle true; IRet KPrepend false] ds st with
+    match exec_range vis env t [IIf (COr CDone CTargetIsLast) KCycle true; IRet KPrepend false] ds st with
     | FNext st' => NoCyc (St (del t (partial st')) (t :: complete st'))
     | FRet r => r
     | FBad => OutOfFuel
@@ -40,43 +64,81 @@ Proof.
   destruct (d || Nat.eqb t (last c 0)); reflexivity.
 Qed.
 
-Lemma run_visit_eq body :
+(* env: ANY targets - whatever BuildDependencies() returns for them and whatever state they are in -
+   as long as Dependencies() of target t is row t of g *)
+Lemma run_visit_eq body env g :
   body = [SIf CStopped KNil false;
           SIf (CIn SComplete) KNil false;
           SIf (CIn SPartial) KSelf false;
           SAdd SPartial;
-          SRange [IIf (COr CDone CTargetIsLast) KCycle true; IRet KPrepend false];
+          SRange DepsAll [IIf (COr CDone CTargetIsLast) KCycle true; IRet KPrepend false];
           SDel SPartial;
           SAdd SComplete;
           SRet KNil false] ->
-  forall fuel g st t, run_visit body fuel g st t = visit fuel g st t.
+  (forall t, te_deps env DepsAll t = deps g t) ->
+  forall fuel st t, run_visit body fuel env st t = visit fuel g st t.
 Proof.
-  intros Hb. induction fuel as [|f IH]; intros g st t; [reflexivity |].
-  cbn [run_visit visit]. pose proof (IH g) as Hv.
-  generalize dependent (run_visit body f g). intros vis Hv. subst body.
+  intros Hb Hd. induction fuel as [|f IH]; intros st t; [reflexivity |].
+  cbn [run_visit visit]. pose proof IH as Hv.
+  generalize dependent (run_visit body f env). intros vis _ Hv. subst body.
   cbn [exec_body eval_cond option_map in_set do_ret].
   destruct (mem t (complete st)); [reflexivity |].
   destruct (mem t (partial st)); [reflexivity |].
-  cbn [add_set]. rewrite (range_eq vis (visit f g) t Hv).
-  destruct (exec_range vis t _ (deps g t) (St (t :: partial st) (complete st))); reflexivity.
+  cbn [add_set]. rewrite (range_eq vis (visit f g) env t Hv). rewrite Hd.
+  destruct (exec_range vis env t _ (deps g t) (St (t :: partial st) (complete st))); reflexivity.
 Qed.
 
-Lemma run_loop_eq vbody lbody :
-  (forall fuel g st t, run_visit vbody fuel g st t = visit fuel g st t) ->
-  lbody = [LIfRetNil CStopped; LIfVisit (CNot (CIn SComplete))] ->
-  forall fuel g order st, run_loop vbody lbody fuel g order st = check_loop fuel g order st.
+Lemma run_loop_eq vbody lbody env g :
+  (forall fuel st t, run_visit vbody fuel env st t = visit fuel g st t) ->
+  lbody = [LIfRetNil CStopped; LIfVisit (CNot (CIn SComplete)) RCycle] ->
+  forall fuel order st, run_loop vbody lbody fuel env order st = check_loop fuel g order st.
 Proof.
-  intros Hv Hl fuel g. subst lbody. induction order as [|t rest IH]; intros st; [reflexivity |].
+  intros Hv Hl fuel. subst lbody. induction order as [|t rest IH]; intros st; [reflexivity |].
   cbn [run_loop check_loop exec_loop_body eval_cond option_map in_set].
   destruct (mem t (complete st)); cbn [negb]; [apply IH |].
   rewrite Hv. destruct (visit fuel g st t); [reflexivity | apply IH | reflexivity].
 Qed.
 
+(* The regenerated Check walks Dependencies() and nothing else: it asks neither for BuildDependencies()
+   nor for the State() of any target, and it reports the slice that visit returned. *)
+Theorem src_detect_env_eq g env order :
+  (forall t, te_deps env DepsAll t = deps g t) -> src_detect_env (length g) env order = detect g order.
+Proof.
+  intros Hd. unfold src_detect_env, run_check, detect, fuel_for. rewrite check_prologue_shape. cbn [exec_prologue].
+  apply run_loop_eq; [apply run_visit_eq; [exact visit_body_shape | exact Hd] | exact check_body_shape].
+Qed.
+
 (* the regenerated Check and the hand model are the same function *)
 Theorem src_detect_eq g order : src_detect g order = detect g order.
+Proof. unfold src_detect. apply src_detect_env_eq. intros t. reflexivity. Qed.
+
+(* the regenerated accessors are the hand-written ones of Model/C06.v *)
+Lemma src_row_all ranks l : src_row ranks DepsAll l = sort_by (rank_fn ranks) (row_all l).
 Proof.
-  unfold src_detect, run_check, detect. rewrite check_prologue_shape. cbn [exec_prologue eval_cond].
-  apply run_loop_eq; [apply run_visit_eq; exact visit_body_shape | exact check_body_shape].
+  unfold src_row, src_excl, row_all. rewrite dependencies_excl_shape. cbn [existsb]. reflexivity.
+Qed.
+
+Lemma src_row_build ranks l : src_row ranks DepsBuild l = sort_by (rank_fn ranks) (row_build l).
+Proof.
+  unfold src_row, src_excl, row_build. rewrite build_dependencies_excl_shape. f_equal.
+  apply flat_map_ext. intros di. cbn [existsb has_flag]. unfold excluded_build.
+  rewrite orb_false_r, !orb_assoc. reflexivity.
+Qed.
+
+Lemma kinded_env_deps ranks w rk t :
+  te_deps (kinded_env ranks w rk) DepsAll t = deps (wait_graph ranks w) t.
+Proof.
+  cbn [kinded_env te_deps]. rewrite src_row_all. unfold deps, wait_graph.
+  exact (eq_sym (map_nth (fun l => sort_by (rank_fn ranks) (row_all l)) w [] t)).
+Qed.
+
+(* On targets with dependencies of every kind, in any states, the regenerated Check is the hand model on
+   the graph of Dependencies() - the edges queueTargetAsync waits for. *)
+Theorem src_detect_kinded_eq ranks w rk order :
+  src_detect_env (length w) (kinded_env ranks w rk) order = detect (wait_graph ranks w) order.
+Proof.
+  rewrite <- (map_length (fun l => sort_by (rank_fn ranks) (row_all l)) w).
+  apply src_detect_env_eq. intros t. apply kinded_env_deps.
 Qed.
 
 (* The statement of Props/C06.v, assembled: Proof/C06.v transported along src_detect_eq. *)
